@@ -330,8 +330,15 @@ def rule_R4_print(ctx, prj):
         texts = deep_strs([run.result] + [a for _, aa, kw in run.effects for a in list(aa) + list(kw.values())])
         joined = " ".join(texts)
         missing = [w for w in ("some/path.py", "1234", "56", "4711", "fn_tag") if w not in joined]
-        markup = [(nm, a) for nm, aa, kw in run.effects for a in list(aa) + list(kw.values())
-                  if isinstance(a, str) and "some/path.py" in a and (nm.endswith("from_markup") or nm.endswith(".print") or nm.endswith("rich.print") or nm.endswith("markup.render"))]
+        def flat(a):
+            """the text of an argument: a string, or the literal pieces of an f-string whose other pieces are objects (styles ...)"""
+            if isinstance(a, str):
+                return a
+            if isinstance(a, Sym) and a.name == "fstring":
+                return "".join(x if isinstance(x, str) else "\u27e8obj\u27e9" for x in a.fields.get("parts", []))
+            return None
+        markup = [(nm, flat(a)) for nm, aa, kw in run.effects for a in list(aa) + list(kw.values())
+                  if flat(a) is not None and "some/path.py" in flat(a) and (nm.endswith("from_markup") or nm.endswith(".print") or nm.endswith("rich.print") or nm.endswith("markup.render"))]
         if markup:
             ctx.viol("R4", "format_measurement/path-as-markup", fm.site(), f"the file path is handed to {markup[0][0]} inside the string {markup[0][1][:60]!r}, which interprets console markup: "
                      f"a path segment in square brackets (pages/[slug]/page.ts) is swallowed as a style tag and the line names a file that was not measured")
